@@ -15,6 +15,7 @@ import AiuVerif.Lemmas.Sort
 import AiuVerif.Props.C03
 import AiuVerif.Gen.Sites
 import AiuVerif.Gen.Tables
+import AiuVerif.Gen.Profiles
 
 namespace AiuVerif.C08
 open AiuVerif.Sort RS
@@ -216,6 +217,14 @@ theorem final_sort_last :
     Gen.sites.getLast?.map (fun s => (s.name, s.cond)) = some ("sort_events", false) ∧
     Gen.sortCtxs.getLast?.map (fun c => (c.site + 1, c.sortkey, c.globalSort, c.eventTypes))
       = some (Gen.sites.length, [("ts", 1), ("dur", -1)], true, none) := by
+  decide +kernel
+
+/-- **The shipped profiles end with the enabled final sort** — the registration of the last site is
+matched against the last profile entry (C16.greedy_identity), so an entry moved behind it, or a
+disabled last entry, would silently switch the final sort off. -/
+theorem final_sort_enabled_in_profiles :
+    Gen.everything.map (·.getLast?) = some (some ("sort_events", true)) ∧
+    Gen.torchMinimal.map (·.getLast?) = some (some ("sort_events", true)) := by
   decide +kernel
 
 /-! ### non-vacuity -/
